@@ -115,6 +115,8 @@ const commonPreludeTmpl = `(set-logic ALL)
 (define-sort FP64 () (_ FloatingPoint 11 53))
 (declare-datatype Slice ((mk_Slice (sl_arr Int) (sl_off Int) (sl_len Int) (sl_cap Int))))
 (declare-datatype Iface ((mk_Iface (if_tag Int) (if_val Int))))
+(declare-fun idx (Int Int) Int)
+(assert (forall ((o Int) (i Int)) (! (= (idx o i) (+ o i)) :pattern ((idx o i)))))
 (declare-fun strlen (Int) Int)
 (declare-fun strat (Int Int) @BYTE@)
 (declare-fun strcat (Int Int) Int)
